@@ -70,6 +70,12 @@ def sequences(tier, rng):
                 state = X.tree_to_string(res['tree'])
         if rng.random() < 0.7:
             docs.append(to_text(ro_delete(10 + n)))
+        if s % 9 == 4:
+            # documents that carry an XML declaration naming their encoding, with text outside ASCII: as str the declared
+            # encoding means nothing, as a file / S3 object the bytes are in that encoding
+            enc = rng.choice(['ISO-8859-1', 'windows-1252', 'UTF-16', 'UTF-8', 'iso-8859-15'])
+            docs = ['<?xml version="1.0" encoding="%s"?>' % enc + t.replace('<roSlug>Slug</roSlug>', '<roSlug>Caf\u00e9 ma\u00f1ana \u00c3\u00a9</roSlug>').replace('<storySlug>', '<storySlug>\u00fc ')
+                    for t in docs]
         order = list(range(len(docs)))
         rng.shuffle(order)
         yield [docs[k] for k in order]
